@@ -374,8 +374,34 @@ func (d *Driver) actFor(node string) (creator, provider string) {
 // Next produces the next event.
 func (d *Driver) Next() Event {
 	e := d.nextRaw()
+	for tries := 0; tries < 20 && d.emptiesValidatorSet(e); tries++ {
+		e = d.nextRaw()
+	}
 	d.sidSigner(&e)
 	return e
+}
+
+// emptiesValidatorSet: stake is withdrawn from the last validator that has any consensus power. A chain whose validator set
+// becomes empty stops (the consensus engine, not the application, and no export of it can be imported): such histories are
+// outside what the properties speak of.
+func (d *Driver) emptiesValidatorSet(e Event) bool {
+	if e.Kind != "Undelegate" && e.Kind != "Redelegate" {
+		return false
+	}
+	withPower := 0
+	for _, v := range d.St.Vals {
+		t := v.Tokens
+		if v.V == e.Val {
+			t -= e.Amount
+		}
+		if e.Kind == "Redelegate" && v.V == e.Val2 {
+			t += e.Amount
+		}
+		if t >= 1000000 {
+			withPower++
+		}
+	}
+	return withPower == 0
 }
 
 // sidSigner: a request of a sid DID is signed with the key of one of its documents: mostly the latest, sometimes an
